@@ -21,3 +21,7 @@ L.append(e)
 L.sort(key=lambda e: (e["property"], e["id"]))
 json.dump(L, open(kf, "w"), indent=1)
 print("pinned", fid, rel)
+
+# keep the plain-text view in step
+import subprocess, os
+subprocess.call(["python3", os.path.join(os.path.dirname(os.path.abspath(__file__)), "mkfindings.py")])
